@@ -590,6 +590,11 @@ func doWeb(m http.Handler, fullMethod, ct string, hdr http.Header, body reqBody)
 // doWS runs a WebSocket exchange: clientFrames are the (masked) frames the client sends
 // after the handshake.
 func doWS(m http.Handler, path, rawQuery string, hdr http.Header, clientFrames []byte, sc *env.Script) *callResult {
+	return doWSPrep(m, path, rawQuery, hdr, clientFrames, sc, nil)
+}
+
+// doWSPrep is doWS with a hook that may replace the request (context) and instrument the conn.
+func doWSPrep(m http.Handler, path, rawQuery string, hdr http.Header, clientFrames []byte, sc *env.Script, prep func(*env.Conn, *http.Request) *http.Request) *callResult {
 	if hdr == nil {
 		hdr = http.Header{}
 	}
@@ -607,6 +612,9 @@ func doWS(m http.Handler, path, rawQuery string, hdr http.Header, clientFrames [
 	rec.HijackConn = conn
 	req := &http.Request{Method: "GET", URL: &url.URL{Path: path, RawQuery: rawQuery}, Header: hdr, Proto: "HTTP/1.1", ProtoMajor: 1, ProtoMinor: 1,
 		Host: "verif.test", Body: http.NoBody, RemoteAddr: "192.0.2.1:1234"}
+	if prep != nil {
+		req = prep(conn, req)
+	}
 	p, txt := guard(func() { m.ServeHTTP(rec, req) })
 	rec.Finish()
 	r := &callResult{Proto: "ws", Panicked: p, Panic: txt, HTTPCode: rec.Code, Header: rec.Snap, Body: rec.Body.Bytes(), Rec: rec, Conn: conn, Reader: conn.R}
